@@ -176,6 +176,7 @@ class World:
         self.path_style = path_style
         self.retired = set()        # paths consumed by conflict gadgets: never touched again
         self.guard_retouch = False  # when set: no op may touch an object created/written earlier in this window
+        self.stale_strict = False   # C14: STALE_PATHSTYLE counts every object touched in the window, consumed or not
         self.tomb_both = False      # C10: a delete leaves a tombstone on BOTH sides (a faulted engine delete may be half-recorded)
         self.crash_anywhere = False # C07 enum/batch: a crash may hit any window -> no folder rename when a side is path-style
         self.crash_mode = False     # C07: additionally no folder rename after a crash arm when a side is path-style
@@ -249,11 +250,13 @@ class World:
                     for p in win.W[sd] | win.R[sd]:
                         if under(p, a[0]) or under(p, a[1]):
                             return "DIRMOVE_ISOLATED"
-        if "STALE_PATHSTYLE" in H and self.path_style[s] and win.consumed[s]:
+        stale = win.dirty_side[s] if self.stale_strict else win.consumed[s]
+        if "STALE_PATHSTYLE" in H and self.path_style[s] and stale:
             # open finding KF-43: on a path-style side an object whose change the engine has already been told about
             # (its side's event loop ran) but has not synced yet must not leave its path before the next quiet point
+            # (stale_strict, C14: batches are split, so any later intake step may deliver just that first change)
             for p in vac:
-                for c in win.consumed[s]:
+                for c in stale:
                     if under(p, c):
                         return "STALE_PATHSTYLE"
         if "DIRMOVE_TOMB" in H and op == "rename" and tree.is_dir(a[0]) and self.path_style[s]:
